@@ -70,6 +70,10 @@ func NewCommentReader(r io.Reader, startMatches, endMatches [][]byte, isComments
 		b: &bytes.Buffer{},
 	}
 
+	// A string, a comment or the text between them is a token of scanner,
+	// which may be larger than the default limit 64KB of scanner.
+	v.s.Buffer(nil, int(^uint(0)>>1))
+
 	v.s.Split(func(data []byte, atEOF bool) (advance int, token []byte, err error) {
 		if atEOF && len(data) == 0 {
 			// read more.
